@@ -123,6 +123,7 @@ type State struct {
 	PrivChans    []Term // channels made by this unit that nothing else can reach yet
 	PrivTaint    map[string][]string // local variable cell -> private channels stored in it
 	Weak         []string            // facts lost on this path only because a function of the module has no contract
+	ExitWeak []exitWeak // weakenings that take effect when the path leaves the loop they belong to
 	Cuts         []string            // labels of the loops this path was cut at (their invariants were assumed)
 }
 
@@ -170,6 +171,7 @@ func (s *State) Clone() *State {
 		PrivChans:    append([]Term(nil), s.PrivChans...),
 		PrivTaint:    cloneTaint(s.PrivTaint),
 		Weak:         s.Weak,
+		ExitWeak:     s.ExitWeak,
 		Cuts:         s.Cuts,
 	}
 	for k, v := range s.Mem {
@@ -275,4 +277,12 @@ func (ev CallEvent) havocVal(u *Unit, name string, idx int, so Sort) Term {
 		ev.HavocVals[k] = t
 	}
 	return t
+}
+
+// exitWeak: a loop of fn (blocks) whose cut forgot more than its body changes; paths that
+// have left the loop are weak, the body itself is executed exactly from the havocked head.
+type exitWeak struct {
+	fn     *ssa.Function
+	blocks map[*ssa.BasicBlock]bool
+	why    string
 }
